@@ -47,11 +47,34 @@ def main():
     rep = core.Report("C04")
     quick = core.tier() == "quick"
     rng = random.Random(core.seed() * 7919 + 4)
+    # (A): the operational model of the offline monitor (DenseOff!OffC: merge of sample lists, forward / backward sweeps of the
+    # bounded operators, since / until folds) denotes Dense!SigC for every formula of a universe x every pair of short signals
+    import densemc
+    ax, ay = pred("ge", var("x"), const(2)), pred("lt", var("y"), const(2))
+    k03 = pred("le", bi("sub", const(0), const(3)), const(1))
+    FU = [ax, bi("and", ax, ay), bi("or", var("x"), var("y")), pred("ge", bi("sub", var("x"), var("y")), const(0)), un("onceT", ax, 1, 2),
+          un("histT", bi("or", ax, ay), 0, 1), bi("since", ax, ay), bi("sinceT", ax, ay, 1, 2), un("once", bi("and", ax, ay)),
+          bi("and", un("onceT", ax, 1, 1), ay), un("onceT", un("histT", ax, 0, 1), 1, 2), bi("implies", un("not", ax), un("onceT", ay, 0, 2)),
+          un("evT", ax, 1, 2), un("alwT", bi("or", ax, ay), 0, 1), bi("until", ax, ay), bi("untilT", ax, ay, 1, 2), bi("untilT", ax, ay, 0, 2),
+          un("ev", bi("and", ax, ay)), un("alw", ax), un("evT", un("alwT", ay, 0, 1), 1, 2), un("onceT", un("evT", ax, 0, 2), 1, 1),
+          bi("or", k03, ax), bi("sinceT", ax, ay, 0, 2), un("hist", un("alwT", ax, 0, 1)), bi("xor", un("ev", ax), un("histT", ay, 1, 3)),
+          pred("eq", bi("add", var("x"), un("abs", var("y"))), const(1)), un("alwT", un("evT", ax, 1, 1), 2, 3), bi("iff", un("alw", ay), un("once", ax)),
+          bi("until", un("onceT", ax, 0, 1), un("not", ay)), un("evT", bi("since", ax, ay), 0, 3)]
+    r = densemc.run_offline("C04_off", FU, maxt=3 if quick else 5, maxn=3 if quick else 4, vals=(-2, 1, 3))
+    rep.add_mc("DenseOffMC: DenseOff!OffC denotes Dense!SigC (monotone, starts at the domain begin, equal on the domain) for %d formulas x "
+               "all signal pairs with <= %d samples, common end <= %d" % (len(FU), 3 if quick else 4, 3 if quick else 5), r)
+    if r["violated"]:
+        rep.mc_violation("DenseOffMC", r)
+    # the open finding F-04b at design level: the same model on signals whose first time-stamp is 1
+    r = densemc.run_offline("C04_off_t0", FU, maxt=3, maxn=3, vals=(-2, 3), t0=1, expect_violation=True)
+    rep.extra["deviation_on_counterexamples"] = {"first time-stamp 1 (F-04b, the model as transcribed)": r["violated"]}
     cases = gen_cases(rng, 1200 if quick else 30000)
     traces = runner.run_cases(cases)
     vs_, gen, dist = core.validate("C04", traces, module="TraceCt")
     rep.add_traces(traces, vs_, gen, dist, nontrivial_key=lambda c: c["objs"][0]["text"] + str(c["events"][-1]["w"]))
-    return rep.finish("traces: random dense-time formulas (Boolean, arithmetic, bounded and unbounded past/future, since/until) depth<=3 on "
+    return rep.finish("TLC: theorem DenseOffMC (the operational model of the offline monitor, DenseOff.tla, denotes Dense!SigC) on a formula "
+                      "universe x all short signal pairs; every evaluate() below is also computed by that model and must return exactly its "
+                      "list (binding diagnostic operational_model_*); traces: random dense-time formulas (Boolean, arithmetic, bounded and unbounded past/future, since/until) depth<=3 on "
                       "1-3 piecewise-constant signals with unaligned integer break-points and different first time-stamps; the returned "
                       "sample list must be monotone, start at the domain begin and, read as a step function at every cell start and "
                       "mid-point, equal Dense!SigC")
